@@ -22,12 +22,13 @@ pub fn opts_quick(sort_by_name: bool, derive: &str) -> Options {
 }
 
 pub fn opts_custom(prefix: &str, text_id: &str, derive: &str, sort_by_name: bool) -> Options {
-    Options {
-        text_identifier: text_id.to_string(),
-        attribute_prefix: prefix.to_string(),
-        derive: derive.to_string(),
-        sort: if sort_by_name { SortBy::XmlName } else { SortBy::Unsorted },
-    }
+    // by field assignment on top of a preset, so that a further public field added to Options does not break the harness build
+    let mut o = Options::quick_xml_de();
+    o.text_identifier = text_id.to_string();
+    o.attribute_prefix = prefix.to_string();
+    o.derive = derive.to_string();
+    o.sort = if sort_by_name { SortBy::XmlName } else { SortBy::Unsorted };
+    o
 }
 
 /// BufRead that hands out at most `chunk` bytes per fill_buf (C07/C11: "any buffered reader")
